@@ -153,8 +153,24 @@ theorem foreignEndTagLoop_good (MO : ∀ m, isLate m = true → ModeOk m) {tag :
       foreignEndTagLoop tag idx first s = .ok (res, s') → Out r s' res
   | 0, first, s, s', res, hb, q0, _, _, e => by
     unfold foreignEndTagLoop at e
-    obtain ⟨rfl, rfl⟩ := pure_ok.mp e
-    exact rebuild _ hb q0.mode (by rw [q0.rest])
+    rw [getS_bind] at e
+    cases hget : s.openElems[0]? with
+    | none =>
+      rw [hget] at e; dsimp only at e
+      obtain ⟨_, _, h1, _⟩ := bind_ok.mp e
+      exact absurd h1 panicAt_ok
+    | some node =>
+      rw [hget] at e; dsimp only at e
+      obtain ⟨nd, s1, e1, e2⟩ := bind_ok.mp e
+      obtain ⟨rfl, rfl⟩ := pure_ok.mp e1
+      obtain ⟨n, s2, e3, e4⟩ := bind_ok.mp e2
+      obtain ⟨q2, rfl, _⟩ := elemName_sem e3
+      have hg2 : Good r s2 := rebuild s2 (hb.qs q2) (q2.mode.trans q0.mode) (by rw [q2.rest, q0.rest])
+      rcases ite_run e4 with ⟨h1, e4⟩ | ⟨h1, e4⟩
+      · rw [getS_bind] at e4
+        exact MO s2.mode hg2.late.ml.mode (.tag tag) inferInstance r s2 res s' hg2 rfl e4
+      · obtain ⟨rfl, rfl⟩ := pure_ok.mp e4
+        exact hg2
   | idx + 1, first, s, s', res, hb, q0, habove, hfirst, e => by
     unfold foreignEndTagLoop at e
     rw [getS_bind] at e
